@@ -591,7 +591,9 @@ def extract_main(repo):
     # changeToOutputDirectory
     cd = funcs["changeToOutputDirectory"]
     c = norm(cd.body_toks).replace(" ", "")
-    m = re.match(r'^charoutputDir\[(\w+)\];strcpy\(outputDir,outputPath\);strcpy\(outputDir,dirname\(outputDir\)\);'
+    # outputDir := dirname(copy of outputPath) — either by the overlapping strcpy of the pinned tree or by memmove
+    m = re.match(r'^charoutputDir\[(\w+)\];(?:constchar\*dir=NULL;)?strcpy\(outputDir,outputPath\);'
+                 r'(?:strcpy\(outputDir,dirname\(outputDir\)\);|dir=dirname\(outputDir\);memmove\(outputDir,dir,strlen\(dir\)\+1\);)'
                  r'if\(chdir\(outputDir\)<0\)\{fprintf\(stderr,".*?",outputDir\);returnfalse;\}returntrue;$', c)
     if not m:
         raise ExtractFail(f"{W}:{cd.line}", "changeToOutputDirectory has unexpected shape")
@@ -773,8 +775,12 @@ def extract_c(repo, consts):
     f = funcs["wasmCWriteModule"]
     where = f"{W}:{f.line}"
     nn = norm(f.body_toks)
+    # outputName := basename(copy of outputPath) — overlapping strcpy (pinned tree) or memmove
     m = re.match(r"^charoutputName\[(\w+)\];charheaderName\[(\w+)\];constchar\*outputPath=options\.outputPath;"
-                 r"strcpy\(outputName,outputPath\);strcpy\(outputName,basename\(outputName\)\);"
+                 r"(?:constchar\*outputBaseName=NULL;)?"
+                 r"strcpy\(outputName,outputPath\);"
+                 r"(?:strcpy\(outputName,basename\(outputName\)\);"
+                 r"|outputBaseName=basename\(outputName\);memmove\(outputName,outputBaseName,strlen\(outputBaseName\)\+1\);)"
                  r"strcpy\(headerName,outputName\);"
                  r"\{char\*headerExt=strrchr\(headerName,('(?:[^'\\]|\\.)')\);"
                  r"if\(headerExt==NULL\)\{headerExt=headerName\+strlen\(headerName\);\}"
